@@ -17,6 +17,9 @@ for d in $V/seeded/$GLOB/; do
   [ -f "$d/patch.diff" ] || continue
   prop=$(python3 -c "import json;print(json.load(open('$d/meta.json'))['property'])")
   also=$(python3 -c "import json;print(' '.join(json.load(open('$d/meta.json')).get('also_checks',[])))")
+  # a hunk that only fits at an offset may have landed in a look-alike function
+  # (it happened to C02-muta2 after a fix moved the file): refuse, rebase by hand
+  if git -C /repo apply --check -v "$d/patch.diff" 2>&1 | grep -q 'offset'; then echo "$id: PATCH-APPLIES-ONLY-AT-AN-OFFSET (rebase it)"; fail=$((fail+1)); continue; fi
   if ! git -C /repo apply "$d/patch.diff" 2>/tmp/apply.err; then echo "$id: PATCH-DOES-NOT-APPLY $(head -1 /tmp/apply.err)"; fail=$((fail+1)); continue; fi
   if ! (cd /repo && go build ./... && go test -count=1 ./... >/tmp/seed_test.log 2>&1); then tests="repo-tests-FAIL"; else tests="repo-tests-pass"; fi
   res=""
